@@ -95,12 +95,18 @@ def gen_operator_group(rng, B, D):
     p = pool_of(B)
     k = rng.choice(["201", "202", "201+202", "204", "205", "206", "207", "208", "203"])
     els = [pick_element(rng, B) for _ in range(rng.choice([1, 2, 3]))]
+    def wide_enough(delta):
+        # keep every numeric width in 1..32 (the property's quantifier)
+        ok = [d for d in els if not (B[d][3] == regs.NUMERIC and not (1 <= B[d][2] + delta <= 32))]
+        return ok or [d for d in p["num"] if 1 <= B[d][2] + delta <= 32][:1]
     if k == "201":
-        return [201000 + rng.choice([129, 130, 126, 127, 132, 120])] + els + ([201000] if rng.random() < 0.85 else [])
+        y = rng.choice([129, 130, 126, 127, 132, 120])
+        return [201000 + y] + wide_enough(y - 128) + ([201000] if rng.random() < 0.85 else [])
     if k == "202":
         return [202000 + rng.choice([129, 130, 127, 126])] + els + ([202000] if rng.random() < 0.85 else [])
     if k == "201+202":
-        return [201000 + rng.choice([129, 131]), 202000 + rng.choice([129, 127])] + els + [202000, 201000]
+        y = rng.choice([129, 131])
+        return [201000 + y, 202000 + rng.choice([129, 127])] + wide_enough(y - 128) + [202000, 201000]
     if k == "204":
         return [204000 + rng.choice([1, 2, 4, 7, 8]), 31021] + els + ([204000] if rng.random() < 0.85 else [])
     if k == "205":
@@ -108,7 +114,8 @@ def gen_operator_group(rng, B, D):
     if k == "206":
         return [206000 + rng.choice([1, 7, 8, 12, 16, 24]), rng.choice([1192 + 63000 - 1192, 12192 + 50000, 55200, 48255])]
     if k == "207":
-        return [207000 + rng.choice([1, 2, 3])] + els + ([207000] if rng.random() < 0.85 else [])
+        y = rng.choice([1, 2, 3])
+        return [207000 + y] + wide_enough((10 * y + 2) // 3) + ([207000] if rng.random() < 0.85 else [])
     if k == "208":
         cc = [rng.choice(p["ccitt"])] if p["ccitt"] else els
         return [208000 + rng.choice([1, 2, 4, 6])] + cc + els + ([208000] if rng.random() < 0.85 else [])
